@@ -35,7 +35,7 @@ func (i *IRCServer) cmdServerPart(s *Session, reply *Replyctx, msg *irc.Message)
 		}
 		session, _ := i.nicks[NickToLower(msg.Prefix.Name)]
 
-		i.sendCommonChannels(session, reply, &irc.Message{
+		i.sendChannel(c, reply, &irc.Message{
 			Prefix:  servicesPrefix(msg.Prefix),
 			Command: irc.PART,
 			Params:  []string{channelname},
